@@ -138,6 +138,9 @@ def overrideProps (keys : List String) (cur : List (List K)) (kw : List (String 
     (dflt : List K → List K) : List (List K) :=
   List.zipWith (fun k v => (kw.lookup k).getD (dflt v)) keys cur
 
+/-- the default of `interstitial`: `np.zeros_like(value)`. -/
+def zerosLike (v : List K) : List K := v.map fun _ => 0
+
 def maxAtype (l : List (Atom K)) : Int := maxD (l.map (·.atype))
 
 /-- `System(..., symbols=system.symbols)`: the symbols tuple is padded with `None` up to `natypes`. -/
@@ -158,7 +161,7 @@ def interstitialAt (s : Sys K) (p : V3 K) (kw : Kw K) : Except Err (Sys K) :=
   let newOld := kw.oldId.getD (maxD col + 1)
   let atoms := setLast (gather s.atoms idx) fun a =>
     { atype := kw.atype.getD 1, pos := p,
-      props := overrideProps s.keys a.props kw.extra (fun v => v.map fun _ => 0) }
+      props := overrideProps s.keys a.props kw.extra zerosLike }
   .ok (fixSym { s with atoms := atoms, old := some (setLast col fun _ => newOld) })
 
 def substitutionalAt (s : Sys K) (i : Nat) (kw : Kw K) : Except Err (Sys K) :=
